@@ -3,6 +3,8 @@ use num_bigint::BigInt;
 use yui::{EucRing, EucRingOps, Ratio, FF, FF2};
 use yui_homology::{GridTrait, SummandTrait};
 use yui_kh::kh::{KhHomology, KhHomologyBigraded};
+use yui_kh::kh::internal::v2::cob::LcCobTrait;
+use yui_kh::kh::internal::v2::tng_complex::TngComplex;
 use yui_link::Link;
 use yui::bitseq::Bit;
 use yv::links::*;
@@ -25,6 +27,79 @@ where R: EucRing, for<'x> &'x R: EucRingOps<R> {
         }
     }
     table_txt(cells)
+}
+
+/// a different route through the engine's public building blocks (Bar-Natan's local bracket, divide and conquer):
+/// the crossings are split into two sub-tangles, each absorbed into its own `TngComplex` carrying the degree shift of its
+/// own crossings, simplified by delooping / Gaussian elimination in a RANDOM order, then composed with `connect`.
+fn simplify<R>(c: &mut TngComplex<R>, r: &mut Rng)
+where R: EucRing, for<'x> &'x R: EucRingOps<R> {
+    loop {
+        let mut cands: Vec<_> = c.keys().flat_map(|k| c.vertex(k).tng().comps().enumerate().filter(|(_, a)| a.is_circle()).map(|(i, _)| (*k, i)).collect::<Vec<_>>()).collect();
+        if cands.is_empty() { break }
+        cands.sort();
+        let (k, i) = cands[r.below(cands.len() as u64) as usize];
+        c.deloop(&k, i);
+    }
+    loop {
+        let mut cands: Vec<_> = c.keys().flat_map(|k| c.keys_out_from(k).filter(|l| c.edge(k, l).is_invertible()).map(|l| (*k, *l)).collect::<Vec<_>>()).collect();
+        if cands.is_empty() { break }
+        cands.sort();
+        let (k, l) = cands[r.below(cands.len() as u64) as usize];
+        c.eliminate(&k, &l);
+    }
+}
+
+fn kh_by_halves<R>(l: &Link, order: &[usize], split: usize, h: &R, t: &R, bigr: bool, tor: &dyn Fn(&R) -> BigInt, r: &mut Rng) -> String
+where R: EucRing, for<'x> &'x R: EucRingOps<R> {
+    let signs = l.crossing_signs();
+    let mut bracket = |idx: &[usize], r: &mut Rng| {
+        let n_pos = idx.iter().filter(|&&i| signs[i].is_positive()).count() as isize;
+        let n_neg = idx.len() as isize - n_pos;
+        let mut c = TngComplex::<R>::init(h, t, (-n_neg, n_pos - 2 * n_neg), None);
+        for &i in idx { c.append(&l.data()[i]); if r.bool() { simplify(&mut c, r); } }
+        simplify(&mut c, r);
+        c
+    };
+    let mut ca = bracket(&order[..split], r);
+    let cb = bracket(&order[split..], r);
+    ca.connect(cb);
+    simplify(&mut ca, r);
+    assert!(ca.is_completely_delooped());
+    let kh = ca.into_kh_complex(vec![]).homology();
+    let mut cells = vec![];
+    if bigr {
+        let kh = kh.into_bigraded();
+        for idx in kh.support() { let s = kh.get(idx); cells.push(((idx.0, Some(idx.1)), group_txt(s.rank(), s.tors().iter().map(|x| tor(x)).collect()))); }
+    } else {
+        for i in kh.support() { let s = kh.get(i); cells.push(((i, None), group_txt(s.rank(), s.tors().iter().map(|x| tor(x)).collect()))); }
+    }
+    table_txt(cells)
+}
+
+fn halves_case(s: &mut Sink, r: &mut Rng, c: &Case) {
+    let l = c.link.clone();
+    let n = l.data().len();
+    if n < 2 || !is_plain_pd(&l) { return }
+    let mut order: Vec<usize> = (0..n).collect();
+    if r.bool() { r.shuffle(&mut order); }
+    let split = 1 + r.below(n as u64 - 1) as usize;
+    let (h, t) = *r.pick(&[(0i64, 0i64), (0, 0), (1, 0), (0, 1), (2, 3)]);
+    let bigr = (h, t) == (0, 0) && r.bool();
+    let ring = *r.pick(&[RingTag::Z64, RingTag::Z64, RingTag::Q, RingTag::F3]);
+    let req = format!("kh {} {} {} 0 {} {}", ring.coeff(), h, t, bigr as u8, link_txt(&l));
+    let mut r2 = r.fork();
+    let (l2, o2) = (l.clone(), order.clone());
+    let got = guard_timeout(120, move || match ring {
+        RingTag::Q => kh_by_halves::<Ratio<i64>>(&l2, &o2, split, &Ratio::from(h), &Ratio::from(t), bigr, &|_| BigInt::from(0), &mut r2),
+        RingTag::F3 => kh_by_halves::<FF<3>>(&l2, &o2, split, &FF::<3>::new(h as i32), &FF::<3>::new(t as i32), bigr, &|_| BigInt::from(0), &mut r2),
+        _ => kh_by_halves::<i64>(&l2, &o2, split, &h, &t, bigr, &|x| BigInt::from(*x), &mut r2),
+    });
+    let reply = match got { Some(Some(tbl)) => format!("signs={} {}", signs_txt(&l), tbl), None => "timeout".into(), _ => "panic".into() };
+    s.oracle(!(reply == "timeout" || reply == "panic"), "composing two sub-tangle complexes (divide and conquer) terminates without panic on a valid diagram",
+        &format!("{} [{} order={:?} split={}]", req, c.name, order, split), &reply);
+    s.count("route.divide-and-conquer");
+    s.case(&req, &reply, n >= 2);
 }
 
 #[derive(Clone, Copy, Debug, PartialEq)]
@@ -184,6 +259,7 @@ fn main() {
         if n > (if thorough { 9 } else { 7 }) { continue }
         s.count(&format!("diagram.{}", c.name.split(|ch: char| !ch.is_ascii_alphabetic()).next().unwrap_or("other")));
         guarded_case(&mut s, &c.name, |s| variants(s, &mut r, c, thorough));
+        if n <= (if thorough { 8 } else { 6 }) { for _ in 0..(if thorough { 4 } else { 2 }) { guarded_case(&mut s, &c.name, |s| halves_case(s, &mut r, c)); } }
     }
     s.finish();
 }
